@@ -177,7 +177,10 @@ func buildShiftMatchingPredicate(sw swamp.Swamp, beaconType swamp.BeaconType, fi
 	if plan.Mode != PlanModeBypass {
 		candidates := collectBucketCandidates(sw, plan.Hints)
 		keySet = candidateKeySet(candidates)
-		filterEval = plan.Residual
+		// The candidate set is taken before the engine's selection lock: a record can be patched out
+		// of the indexed condition in between, so the whole filter (not only the residual) is
+		// evaluated on each candidate at claim time.
+		filterEval = filters
 	}
 
 	if !hasTimeBounds {
